@@ -164,11 +164,28 @@ def r17_4(run, model):
         raise AnalysisIncomplete("DynTraitMethod elaboration not found")
 
 
+def r17_9(run, model):
+    run.rule("R17.9", "an expression is recorded at its own type, the coercion to dyn separately: in check_expr the result tables are written "
+                      "(record_expr_result) before coerce_to_expected_dyn wraps the node - the TAST builder rebuilds the inner node from "
+                      "the recorded type, so recording the coerced type gives `dyn__Show{x: 1}` for `P { x: 1 }`")
+    f = model.fn("check_expr", CHECK, impl="Typer")
+    rec = [c for c in S.walk(f.body) if c["k"] == "MethodCall" and c["method"] == "record_expr_result"]
+    coe = [c for c in S.walk(f.body) if c["k"] == "MethodCall" and c["method"] == "coerce_to_expected_dyn"]
+    if not rec or not coe:
+        raise AnalysisIncomplete("check_expr: record_expr_result / coerce_to_expected_dyn not found")
+    last_coe = max((c["sp"][0], c["sp"][1]) for c in coe)
+    late = [c for c in rec if (c["sp"][0], c["sp"][1]) > last_coe]
+    run.ob("R17.9", "check_expr|expression recorded before the dyn coercion", not late, site(CHECK, (late or rec)[0]["sp"]),
+           f"{len(rec)} record_expr_result call(s); after the coercion: {len(late)}",
+           witness="let d: dyn Show = P { x: 1 } emits dyn__Show{x: 1}; pr(-x) emits `var t dyn__Show = -x`; let d: dyn Show = E::A(1) panics in the Go back end")
+
+
 def run(run, model):
     run.try_rule(r17_1, model)
     run.try_rule(r17_2, model)
     run.try_rule(r17_3, model)
     run.try_rule(r17_4, model)
+    run.try_rule(r17_9, model)
     from rules import c01
     from lib import passes as P
     run.rule("R17.7", "every coercion to dyn gets its vtable: the collector that decides which vtable constructors and wrappers are generated "
